@@ -24,7 +24,7 @@ ODD_WS = ["\t", "\n", "\x0b", "\x0c", "\r", "\x1c", "\x1d", "\x1e", "\x1f", "\x8
           " ", " ", " ", " ", " ", "　", "​", "﻿", "  ", " \t "]
 UDIGITS = {"0": "٠０𝟎", "1": "١１¹", "2": "٢２²", "3": "٣３³", "4": "٤４", "5": "٥５", "6": "٦６", "7": "٧７", "8": "٨８", "9": "٩９৯"}
 # characters that re.IGNORECASE folds onto ASCII letters (s, k, i): outside the ASCII models
-FOLD_SPECIAL = ["ſ", "K", "İ", "ı"]
+FOLD_SPECIAL = ["\u017f", "\u212a", "\u0130", "\u0131"]
 
 VERSION_TOKENS = ["0", "1", "2", "10", "007", "2024", ".", "-", "_", "+", "!", "v", "V", "a", "b", "c", "rc", "alpha", "beta", "pre",
                   "preview", "post", "rev", "r", "dev", "A", "RC", "Post", "DEV", "abc", "1a", "x", "*", " ", ".post", ".dev0", "-1"]
